@@ -7,12 +7,14 @@ import (
 	"io"
 	"net"
 	"strconv"
+	"strings"
 	"time"
 
 	"github.com/samaritan-proxy/samaritan/pb/config/protocol"
 	pbredis "github.com/samaritan-proxy/samaritan/pb/config/protocol/redis"
 	"github.com/samaritan-proxy/samaritan/pb/config/service"
 	"github.com/samaritan-proxy/samaritan/proc/internal/log"
+	"github.com/samaritan-proxy/samaritan/proc/redis/hotkey"
 )
 
 // Re-exports for the verification harness (/verif). Compiled only with -tags verif.
@@ -104,6 +106,21 @@ func VerifNewClientCompress(conn net.Conn, enable bool, threshold uint32) (*Veri
 		return nil, err
 	}
 	return &VerifClient{c: c}, nil
+}
+
+// VerifHotKeyFilter runs the hot-key filter of a backend connection (with a counter of its
+// own) over the given request bodies and returns what the counter then holds.
+func VerifHotKeyFilter(capacity uint8, bodies []*RespValue) map[string]uint64 {
+	counter := hotkey.NewCounter(capacity, nil)
+	f := newHotKeyFilter(counter)
+	for _, b := range bodies {
+		cmd := ""
+		if len(b.Array) > 0 {
+			cmd = strings.ToLower(string(b.Array[0].Text))
+		}
+		f.Do(cmd, newSimpleRequest(b))
+	}
+	return counter.Latch()
 }
 
 // Is reports whether obj (as passed to the pause hook) is this connection.
